@@ -1034,6 +1034,12 @@ def replay(ctx, data):
         for v in rec.violations:
             print("violation:", v[0], v[1][:400])
         return 1 if rec.violations else 0
+    if kind in ("genfw", "versions", "substring_programs"):
+        rec = E.job_genfw(r["seed"]) if kind == "genfw" else (E.job_versions(r["project"], get_project) if kind == "versions" else E.job_substring_programs(r["project"], get_project))
+        for v in rec.violations:
+            print("violation:", v[0], v[1][:400])
+        print("replay:", "FAILS" if rec.violations else "passes")
+        return 1 if rec.violations else 0
     if kind == "migrated":
         rec = E.job_migrated(r["file"])
         for v in rec.violations:
